@@ -15,16 +15,20 @@ THEOREMS = [
     "C17_rbf_shutdown_exchange", "C17_rbf_shutdown_simultaneous", "C17_rbf_flushed",
     "C17_rbf_sigfield_matches_outputs",
     "C17_rbf_fee_not_monotone", "C17_rbf_sigfield_mismatch_refuted", "C17_rbf_locktime_refuted",
+    # entry of the legacy negotiation: every ordering of shutdown / flush / first offer
+    "C17_entry_park_commutes", "C17_entry_confluent", "C17_entry_terminates",
 ]
-MODULE = "LV.Coop.Props LV.Coop.RbfProps"
+MODULE = "LV.Coop.Props LV.Coop.RbfProps LV.Coop.EntryProps"
 TARGETS = ["theories/Coop/Props.vo", "theories/Coop/Exec.vo", "theories/Coop/Examples.vo",
            "theories/Coop/GenBridge.vo",
-           "theories/Coop/RbfProps.vo", "theories/Coop/RbfExec.vo", "theories/Coop/RbfExamples.vo"]
+           "theories/Coop/RbfProps.vo", "theories/Coop/RbfExec.vo", "theories/Coop/RbfExamples.vo",
+           "theories/Coop/EntryProps.vo", "theories/Coop/EntryExec.vo"]
 H_WALLET = "lnwallet/verif_coop_test.go"
 H_CLOSER = "chancloser/verif_negotiate_test.go"
 H_RBF = "chancloser/verif_rbf_test.go"   # shares helpers with H_CLOSER
+H_ENTRY = "chancloser/verif_entry_test.go"  # entry orderings; run by TestVerifRbf
 WARM = [{"pkg": "lnwallet", "files": [H_WALLET]},
-        {"pkg": "lnwallet/chancloser", "files": [H_CLOSER, H_RBF]}]
+        {"pkg": "lnwallet/chancloser", "files": [H_CLOSER, H_RBF, H_ENTRY]}]
 IMPORTS = ("From Coq Require Import List ZArith NArith Bool.\nImport ListNotations.\n"
            "From LV Require Import Coop.Model Coop.Exec.\n")
 
@@ -299,6 +303,55 @@ def neg_predicate(c):
     return f
 
 
+def entry_stage(ctx, erows):
+    """Legacy flow, ENTRY orderings: every maximal interleaving of shutdown / flush
+    report / first closing_signed, enumerated by the harness, on two real ChanClosers."""
+    runs = [c for c in erows if c["k"] == "entry"]
+    norders = sum(c["n"] for c in erows if c["k"] == "entry_orders")
+    if not runs or norders < 20:
+        ctx.violation("harness_failed", "TestVerifRbf/entry orderings",
+                      {"orderings": norders, "runs": len(runs)}, signature="harness", failing_input=False)
+        return
+    nfail = 0
+    for c in runs:
+        fails = RBF.entry_predicate(c)
+        if fails:
+            c["_pred_fail"] = True
+            nfail += 1
+            if nfail <= 3:
+                ctx.violation("impl_violates_predicate", fails[0][0],
+                              {"ordering": c["order"], "case": c, "fails": fails[:6]},
+                              signature="entry %s" % fails[0][1][:70])
+    terms, origin = [], []
+    for ri, c in enumerate(runs):
+        for name, t in RBF.entry_terms(c):
+            terms.append(t)
+            origin.append((ri, name))
+    ok, bad, logs = coq_mismatches(ctx.uid("en"), RBF.ENTRY_IMPORTS, terms,
+                                   shard=min(400, max(20, len(terms) // NCPU + 1)), scope="Z_scope",
+                                   timeout=3000)
+    if not ok:
+        ctx.violation("correspondence_mismatch", "Coop.EntryExec (model evaluation failed)",
+                      {"logs": logs}, signature="model-eval", failing_input=False)
+    for ti, ops in bad[:3]:
+        ri, name = origin[ti]
+        c = runs[ri]
+        i = ops[0] - 1 if ops else 0
+        ctx.violation("correspondence_mismatch", "Coop.EntryExec entry/%s" % name,
+                      {"ordering": c["order"], "name": c["name"], "dup": c["dup"], "node": name,
+                       "call_index": i + 1, "calls": c["calls" + name][:i + 1]},
+                      signature="entry mismatch", failing_input=True)
+    parked = sum(1 for c in runs if any(call["cache"] is not None for call in c["callsR"]))
+    ctx.cov["entry"] = {
+        "orderings_enumerated": norders, "runs_two_real_chanclosers": len(runs),
+        "runs_with_parked_offer": parked,
+        "runs_with_duplicates": sum(1 for c in runs if c["dup"]),
+        "evaluations": len(terms), "correspondence_mismatches": len(bad),
+        "finished": sum(1 for c in runs if c["finO"] and c["finR"]),
+    }
+    ctx._entry_counts = (len(terms), len(runs))
+
+
 def rbf_stage(ctx, rrows):
     """RBF state machine: predicates on the implementation trace + correspondence
     with Coop/RbfModel.v (RbfExec.mismatches)."""
@@ -426,7 +479,7 @@ def run(ctx):
                        None, tmo)
         f2 = ex.submit(run_harness, ctx.uid("n"), "lnwallet/chancloser", [H_CLOSER],
                        "^TestVerifNegotiate$", None, tmo)
-        f3 = ex.submit(run_harness, ctx.uid("r"), "lnwallet/chancloser", [H_CLOSER, H_RBF],
+        f3 = ex.submit(run_harness, ctx.uid("r"), "lnwallet/chancloser", [H_CLOSER, H_RBF, H_ENTRY],
                        "^TestVerifRbf$", None, tmo)
         rc1, trace1, out1 = f1.result()
         rc2, trace2, out2 = f2.result()
@@ -447,7 +500,8 @@ def run(ctx):
         ctx.violation("harness_failed", "TestVerifRbf", {"log": out3[-4000:]},
                       signature="harness", failing_input=False)
         return
-    rbf_stage(ctx, rrows)
+    rbf_stage(ctx, [c for c in rrows if not c["k"].startswith("entry")])
+    entry_stage(ctx, [c for c in rrows if c["k"].startswith("entry")])
 
     # ---- property predicates on the implementation's trace
     nfail = 0
@@ -517,6 +571,8 @@ def run(ctx):
             inc(rounds, min(len(c["trace"]) // 10 * 10, 100))
     nontrivial = [c for c in rows if c["k"] in ("chan", "dance", "neg")]
     rt, rr, rn = getattr(ctx, "_rbf_counts", (0, 0, 0))
+    et, er = getattr(ctx, "_entry_counts", (0, 0))
+    rt, rn = rt + et, rn + er
     ctx.cov.update({
         "evaluations": len(terms) + rt,
         "distinct_nontrivial": distinct_count(
